@@ -25,16 +25,22 @@ int __wrap_compress2(Bytef* dest, uLongf* dest_len, const Bytef* source, uLong s
     return __real_compress2(dest, dest_len, source, source_len, level);
 }
 
+// every call that produces output counts as progress for the bounded-liveness check (bytes moved through a
+// decompressor, also for in-memory input where no simulated fd is involved)
 int __wrap_gzread(gzFile f, voidp buf, unsigned len) {
     const size_t c = sim::decomp_clamp();
     if (c && len > c) { len = static_cast<unsigned>(c); }
-    return __real_gzread(f, buf, len);
+    const int r = __real_gzread(f, buf, len);
+    if (r > 0 && sim::active()) { sim::progress(); }
+    return r;
 }
 
 int __wrap_BZ2_bzRead(int* bzerror, BZFILE* b, void* buf, int len) {
     const size_t c = sim::decomp_clamp();
     if (c && static_cast<size_t>(len) > c) { len = static_cast<int>(c); }
-    return __real_BZ2_bzRead(bzerror, b, buf, len);
+    const int r = __real_BZ2_bzRead(bzerror, b, buf, len);
+    if (r > 0 && sim::active()) { sim::progress(); }
+    return r;
 }
 
 int __wrap_inflate(z_streamp strm, int flush) {
@@ -42,11 +48,16 @@ int __wrap_inflate(z_streamp strm, int flush) {
     if (c && strm->avail_out > c) {
         const unsigned held = strm->avail_out - static_cast<unsigned>(c);
         strm->avail_out = static_cast<unsigned>(c);
+        const unsigned before = strm->avail_out;
         const int r = __real_inflate(strm, flush);
+        if (strm->avail_out < before && sim::active()) { sim::progress(); }
         strm->avail_out += held;
         return r;
     }
-    return __real_inflate(strm, flush);
+    const unsigned before = strm->avail_out;
+    const int r = __real_inflate(strm, flush);
+    if (strm->avail_out < before && sim::active()) { sim::progress(); }
+    return r;
 }
 
 int __wrap_BZ2_bzDecompress(bz_stream* strm) {
@@ -54,10 +65,15 @@ int __wrap_BZ2_bzDecompress(bz_stream* strm) {
     if (c && strm->avail_out > c) {
         const unsigned held = strm->avail_out - static_cast<unsigned>(c);
         strm->avail_out = static_cast<unsigned>(c);
+        const unsigned before = strm->avail_out;
         const int r = __real_BZ2_bzDecompress(strm);
+        if (strm->avail_out < before && sim::active()) { sim::progress(); }
         strm->avail_out += held;
         return r;
     }
-    return __real_BZ2_bzDecompress(strm);
+    const unsigned before = strm->avail_out;
+    const int r = __real_BZ2_bzDecompress(strm);
+    if (strm->avail_out < before && sim::active()) { sim::progress(); }
+    return r;
 }
 }
